@@ -1,11 +1,13 @@
 //! c14loader IN.json OUT.jsonl
 //!
-//! IN.json: [{"id": n, "config": text, "root": path, "files": {path: source, …}}, …]
-//! For every request, on a fresh thread (= fresh thread-locals = fresh loader instance), the calls loader-core's
-//! task.ts makes: load_config(config); initiate_task(root, files[root]); repeat { get_required_files; load_file
-//! for each listed path } until none is required; emit_js; read the result.  One JSON line per request is appended
-//! to OUT.jsonl as soon as it is known ({"id", "ok", "js" | "error"}), so an abort inside an `extern "C"` function
-//! (a panic there cannot unwind) leaves the earlier answers in place and the caller sees which request is missing.
+//! IN.json: [{"id": n, "steps": [{"config": text | null, "root": path, "files": {path: source, …}}, …]}, …]
+//! Every request is a HISTORY run on one fresh thread (= fresh thread-locals = one fresh loader instance, as one
+//! wasm instance of the bundler plugin).  Per step, the calls loader-core's task.ts makes: load_config(config) unless
+//! config is null (then the instance keeps whatever configuration is current: the default one before any
+//! load_config); initiate_task(root, files[root]); repeat { get_required_files; load_file for each listed path }
+//! until none is required; emit_js; read the result; free_task.  One JSON line per history is appended to OUT.jsonl
+//! as soon as it is known ({"id", "steps": [{"ok", "js" | "error"}, …]}), so an abort inside an `extern "C"`
+//! function (a panic there cannot unwind) leaves the earlier answers in place and the caller sees which is missing.
 use serde_json::{json, Value};
 use std::fs;
 use std::io::Write as _;
@@ -17,8 +19,9 @@ fn result_string() -> String {
 }
 
 fn run(req: &Value) -> Result<String, String> {
-    let cfg = req["config"].as_str().unwrap_or("");
-    if !loader_lib::load_config(cfg.as_ptr(), cfg.len()) { return Err("load_config returned false".into()); }
+    if let Some(cfg) = req["config"].as_str() {
+        if !loader_lib::load_config(cfg.as_ptr(), cfg.len()) { return Err("load_config returned false".into()); }
+    }
     let root = req["root"].as_str().ok_or("no root")?;
     let files = req["files"].as_object().ok_or("no files")?;
     let src = files.get(root).and_then(|x| x.as_str()).ok_or("root source missing")?;
@@ -50,10 +53,11 @@ fn main() {
     for req in reqs {
         let mut o = out.try_clone().unwrap();
         let th = std::thread::Builder::new().stack_size(16 << 20).spawn(move || {
-            let line = match run(&req) {
-                Ok(js) => json!({"id": req["id"], "ok": true, "js": js}),
-                Err(e) => json!({"id": req["id"], "ok": false, "error": e}),
-            };
+            let steps: Vec<Value> = req["steps"].as_array().cloned().unwrap_or_default().iter().map(|st| match run(st) {
+                Ok(js) => json!({"ok": true, "js": js}),
+                Err(e) => json!({"ok": false, "error": e}),
+            }).collect();
+            let line = json!({"id": req["id"], "steps": steps});
             o.write_all(format!("{}\n", line).as_bytes()).unwrap();
         }).unwrap();
         let _ = th.join();
